@@ -44,6 +44,7 @@ class Inconclusive(BaseException):
 
 
 _cur = None
+_OBL = [0]      # solver-decided obligations seen by this process (cross-check sampling)
 
 
 def cur():
@@ -66,7 +67,7 @@ class Violation(object):
 class Stats(object):
     FIELDS = ("paths", "pruned", "queries", "solver_s", "obligations",
               "discharged", "forks", "forced", "shadow_runs", "nontrivial",
-              "known_seen")
+              "known_seen", "crosschecks", "crosscheck_timeouts")
 
     def __init__(self):
         for f in self.FIELDS:
@@ -98,6 +99,12 @@ class Engine(object):
         self.harness = harness
         self.shadow = shadow
         self.shadow_every = shadow_every
+        import os as _os
+        try:
+            self.crosscheck_every = int(_os.environ.get("VERIF_CROSSCHECK", "0"))
+        except ValueError:
+            self.crosscheck_every = 0
+        self._obl_count = 0
         self.allow_render = allow_render
         self.reset = reset
         self.solver = z3.Solver()
@@ -234,6 +241,9 @@ class Engine(object):
             e = P.e
             self.sym_checks.append((label, e))
             r = self._check(z3.Not(e))
+            _OBL[0] += 1
+            if self.crosscheck_every and _OBL[0] % self.crosscheck_every == 0:
+                self._crosscheck(z3.Not(e), r)
             if r == z3.unsat:
                 self.stats.discharged += 1
                 return
@@ -245,6 +255,46 @@ class Engine(object):
                 self.stats.discharged += 1
                 return
             self._violation(label, info, self._model())
+
+    def _crosscheck(self, extra, verdict):
+        """Solver hygiene: re-decide this query (path condition + negated
+        obligation) with two other solver builds -- the z3 4.8.12 and cvc5
+        binaries -- from its SMT-LIB2 export.  A disagreement is an engine
+        error; a timeout of the other solver is counted, not trusted."""
+        import os
+        import subprocess
+        import tempfile
+        self.solver.push()
+        self.solver.add(extra)
+        text = self.solver.to_smt2()
+        self.solver.pop()
+        text = "(set-logic ALL)\n" + "\n".join(
+            ln for ln in text.splitlines() if not ln.startswith("(set-info"))
+        fd, path = tempfile.mkstemp(suffix=".smt2", prefix="sxcc")
+        os.close(fd)
+        want = "sat" if verdict == z3.sat else "unsat"
+        try:
+            with open(path, "w") as f:
+                f.write(text + "\n")
+            for cmd in (["/usr/bin/z3", "-T:20", path], ["cvc5", "--tlimit=20000", path]):
+                try:
+                    out = subprocess.run(cmd, capture_output=True, text=True, timeout=40).stdout
+                except (OSError, subprocess.TimeoutExpired):
+                    self.stats.crosscheck_timeouts += 1
+                    continue
+                lines = [x.strip() for x in out.splitlines() if x.strip()]
+                if "(error" in out or not lines or lines[0] not in ("sat", "unsat"):
+                    self.stats.crosscheck_timeouts += 1
+                    continue
+                if lines[0] != want:
+                    raise EngineError("solver disagreement: z3 %s says %s, %s says %s on %s" % (
+                        z3.get_version_string(), want, cmd[0], lines[0], path))
+                self.stats.crosschecks += 1
+        finally:
+            try:
+                os.unlink(path)
+            except OSError:
+                pass
 
     def fail(self, label, info=None):
         self.check(label, False, info)
